@@ -146,8 +146,10 @@ func (c *Content) WithFileInfoDefaults(umask fs.FileMode, mtime time.Time) *Cont
 		cc.FileInfo.Mode != 0 &&
 		(cc.FileInfo.Size != 0 || (cc.Type == TypeDir || cc.Type == TypeImplicitDir)))
 
-	// only stat source when we actually need more information
-	if cc.Source != "" && !fileInfoAlreadyComplete {
+	// only stat source when we actually need more information; the source
+	// of a symlink entry is the link target, which is not a file to package
+	// and need not exist (or mean the same thing) on the build host
+	if cc.Source != "" && !fileInfoAlreadyComplete && cc.Type != TypeSymlink {
 		info, err := os.Stat(cc.Source)
 		if err == nil {
 			if cc.FileInfo.MTime.IsZero() {
